@@ -379,7 +379,11 @@ Lemma deadline_restored maxcap fh pid topic payload origin created expiry ver pf
 Proof.
   unfold irregular. cbn [p_expiry p_created p_fh p_mei p_ver]. intro H.
   apply orb_false_iff in H. destruct H as [H1 H2]. apply negb_false_iff in H1. apply Z.eqb_eq in H1.
-  cbn zeta. unfold deadline, wire_expiry. cbn [p_ver p_expiry p_created]. rewrite H1. split; [|reflexivity].
+  cbn zeta. unfold deadline, wire_expiry. cbn [p_ver p_expiry p_created]. rewrite H1.
+  assert (U : unhold (regular_expiry maxcap created (eff_mei fh mei)) = regular_expiry maxcap created (eff_mei fh mei)).
+  { unfold unhold, regular_expiry. destruct (min_nz maxcap (eff_mei fh mei) =? 0); [reflexivity|].
+    replace (Z.of_N (created + min_nz maxcap (eff_mei fh mei)) <? 0)%Z with false by lia. reflexivity. }
+  rewrite U. cbn zeta. split; [|reflexivity].
   set (e := regular_expiry maxcap created (eff_mei fh mei)).
   destruct (0 <? e)%Z eqn:E.
   - change (5 =? 5) with true. cbn [andb].
